@@ -195,6 +195,13 @@ def _weave_states_in_region(
                 # a for loop necessitates us to introduce a loop-carried variable
                 # that carries the state through the loop
                 elif isinstance(op, scf.ForOp):
+                    # the provider of the IR can mark the loop itself as affecting the accelerators
+                    # (accfg.effects): nothing is known at the head of its body, and nothing behind it
+                    if isinstance(op.attributes.get("accfg.effects"), accfg.EffectsAttr) and has_accfg_effects(op):
+                        _weave_states_in_region(op.body, dict(), rewriter)
+                        state.clear()
+                        continue
+
                     # go through the for loop body find all accelerators that are touched
                     # the order of this tuple is important
                     updated_accelerators = tuple(sorted(find_all_acc_names_in_region(op.body)))
